@@ -58,7 +58,7 @@ PROPS = {
         "r": [("compress", lambda n: "unpack_array_len" in n),
               ("prover", lambda n: n.startswith("prover.") or n.startswith("lemma.") or n.startswith("quotient.")), ("verifier", lambda n: n.startswith("verifier.") or n.startswith("proof.verify")),
               ("linearization", None), ("serial", lambda n: "Prover." in n or "Verifier." in n or "framing[" in n),
-              ("kzg", lambda n: "CommitKey.commit" in n)],
+              ("kzg", lambda n: "CommitKey.commit" in n), ("preprocess", None)],
         "claim": "function-level necessary conditions of completeness only: (a) prover/verifier agreement - the Fiat-Shamir schedule "
                  "the real prove_inner performs (trace-only symbolic run) is the protocol schedule, and is event-for-event the one "
                  "Proof::verify rebuilds from the returned proof (contract-level lemma); the two opening lists are the verifier's "
@@ -75,13 +75,13 @@ PROPS = {
     },
     "C02": {
         "r": [("verifier", lambda n: n.startswith("proof.") or n.startswith("verifier.verify_with_version")), ("widgets", vk_unit),
-              ("permutation", lambda n: "compute_sigma_permutations" in n), ("composer_leaves", lambda n: "internal" in n)],
+              ("permutation", lambda n: "compute_sigma_permutations" in n), ("composer_leaves", lambda n: "internal" in n), ("preprocess", None)],
         "claim": "verifier-side necessary conditions of soundness only: in Proof::verify / verify_legacy the ONLY Ok path is "
                  "guarded by the pairing check on the two computed G1 elements (exit structure compared exactly); every one of the 15 "
                  "evaluations is bound in [E] with the matching batching coefficient and every opened commitment appears in [F] "
                  "(V2/V3; the known V1 gap for q_arith,q_c,q_l,q_r is part of the legacy contract); all five widget terms, the "
                  "permutation term and the four quotient shares are present with the protocol's scalars."
-                 "Also: Permutation::compute_sigma_permutations closes exactly ONE cycle per witness (instances with fan-out 3, 16, 17, 33) and every appended row enters the permutation map (leaf trace); a callee's errors cannot be swallowed by a fallback in verify_with_version.",
+                 "Also: Permutation::compute_sigma_permutations closes exactly ONE cycle per witness (instances with fan-out 3, 16, 17, 33) and every appended row enters the permutation map (leaf trace); a callee's errors cannot be swallowed by a fallback in verify_with_version. Compiler::preprocess (instances of 1, 3, 4, 5 gates, all selector values symbolic): every selector column holds every gate's selector, and every field of the verifier key and of the prover key is the commitment / polynomial / coset evaluations of the column of the SAME selector.",
         "technique": "contract-based deductive verification: ring/trace contract checker (exact polynomial normal form, exit structure)",
         "level_note": "NOT decided: soundness against all provers (KZG binding, Schwartz-Zippel). Same units as C03, reported for the "
                       "obligations that are necessary for soundness.",
@@ -143,7 +143,7 @@ PROPS = {
     },
     "C05": {
         "r": [("widgets", pk_unit), ("prover", lambda n: n.startswith("quotient.") or n.startswith("prover.prove_inner")), ("composer_leaves", lambda n: "internal" in n),
-              ("permutation", None), ("linearization", None)],
+              ("permutation", None), ("linearization", None), ("preprocess", None)],
         "claim": "the five ProverKey::compute_quotient_i / compute_linearization and the permutation quotient/linearizer "
                  "terms equal, as polynomials in all their inputs, the gate identities of specs/ring/protocol.py times "
                  "selector and separation challenge (all field values, all rows); quotient_poly::compute returns "
@@ -415,7 +415,7 @@ PROPS = {
     },
     "C15": {
         "v_units": ["capacity.py", "compress.py"],
-        "r": [("compress", None)],   # incl. unpack_bounded, from_composer, scalar_map, row replay
+        "r": [("compress", None), ("preprocess", None)],   # incl. unpack_bounded, from_composer, scalar_map, row replay
         "claim": "(a) the two routes accept exactly the same capacities: Compiler::max_constraints(pp) == pow2_floor(max_degree - 6) - 6 "
                  "(saturating), compile_with_composer computes n = npot(c + 6) and fails whenever trim(n) fails, PublicParameters::trim(n) "
                  "succeeds iff n + 6 <= max_degree, and LEMMA max_constraints_exact: for all c >= 1 and all capacities, "
